@@ -237,29 +237,127 @@ def make_pair(alias_text, decl_text, expanded_text, uses):
 
 
 # ---- macros: object-like and function-like, parenthesised bodies and arguments ----
-def gen_macro_pair(rng):
-    params = ["x", "y"][:rng.randint(0, 2)]
-    atoms = ["(%s)" % p for p in params] + ["1", "2", "3"]
+FBODIES1 = ["((x) + 1)", "((x) * 2)", "(-(x))", "((x) < 0 ? 0 : (x))", "((x) % 4)", "((x) - 3)"]
+FBODIES2 = ["((x) < (y) ? (x) : (y))", "((x) > (y) ? (x) : (y))", "((x) + (y))", "((x) - (y))", "((x) * (y))", "((x) == (y))", "((y) ? (x) : 0)"]
+MATOMS = ["0", "1", "2", "3", "4", "5", "7", "9", "20", "g", "buf[1]", "fn(2)"]
 
-    def body(d):
-        if d == 0 or rng.random() < 0.3:
-            return rng.choice(atoms)
-        op = rng.choice(["+", "-", "*", "<", "==", "&&", "/", "%"])
-        return "(%s %s %s)" % (body(d - 1), op, body(d - 1))
-    b = "(" + body(2) + ")" if not params else body(2)
-    if not b.startswith("("):
-        b = "(" + b + ")"
-    name = "M"
-    define = "#define %s%s %s" % (name, "(" + ", ".join(params) + ")" if params else "", b)
-    uses_p, uses_x = [], []
-    argsrc = ["g", "0", "1", "3", "4", "g + 1", "fn(2)", "buf[1]"]
+
+def gen_macro_set(rng):
+    """2-4 function-like macros (parenthesised parameters), an object-like macro naming a function-like one,
+    an object-like macro whose body is an invocation, an object-like constant"""
+    fl = []
+    for i in range(rng.randint(2, 4)):
+        n = rng.choice([1, 2, 2])
+        fl.append(dict(name="F%d" % i, params=["x", "y"][:n], body=rng.choice(FBODIES1 if n == 1 else FBODIES2)))
+    t = rng.randrange(len(fl))
+    t2 = rng.randrange(len(fl))
+    obj = [dict(name="ALIAS", target=t),                                               # #define ALIAS F1
+           dict(name="CALL", target=t2, args=[rng.choice(MATOMS[:9]) for _ in fl[t2]["params"]]),   # #define CALL F0(3, 1)
+           dict(name="KONST", value="(%s)" % rng.choice(["0", "3", "4", "8"]))]
+    return fl, obj
+
+
+def gen_mexpr(rng, fl, obj, depth, mode):
+    """invocation trees: mode 'same' nests one macro in itself, 'alt2'/'alt3' alternate macros, 'any' mixes"""
+    def atom():
+        r = rng.random()
+        if r < 0.15:
+            return ("K", "KONST")
+        if r < 0.25:
+            return ("K", "CALL")
+        return ("a", rng.choice(MATOMS))
+
+    cyc = {"same": [0], "alt2": [0, 1], "alt3": [0, 1, 2]}.get(mode)
+    if cyc:
+        order = list(range(len(fl)))
+        rng.shuffle(order)
+        cyc = [order[i % len(order)] for i in cyc]
+
+    def go(d, level):
+        if d == 0:
+            return atom()
+        if cyc:
+            mi = cyc[level % len(cyc)]
+        else:
+            mi = rng.randrange(len(fl))
+        r = rng.random()
+        if not cyc and r < 0.2:
+            return ("o", rng.choice(["+", "-", "*"]), go(d - 1, level), go(d - 1, level))
+        m = fl[mi]
+        args = []
+        deep = rng.randrange(len(m["params"]))
+        for k in range(len(m["params"])):
+            if k == deep:
+                args.append(go(d - 1, level + 1))
+            else:
+                sub = go(min(d - 1, rng.choice([0, 0, 1])), level + 1)
+                # arguments that are themselves full expressions
+                if rng.random() < 0.3:
+                    sub = ("o", rng.choice(["+", "-"]), sub, ("a", rng.choice(MATOMS[:8])))
+                args.append(sub)
+        if not cyc and obj[0]["target"] == mi and rng.random() < 0.3:
+            return ("k", "ALIAS", mi, args)          # macro reached through an object-like macro naming it
+        return ("m", mi, args)
+    return go(depth, 0)
+
+
+def mexpr_src(e, fl):
+    k = e[0]
+    if k == "a":
+        return e[1]
+    if k == "K":
+        return e[1]
+    if k == "o":
+        return "%s %s %s" % (mexpr_src(e[2], fl), e[1], mexpr_src(e[3], fl))
+    name = fl[e[1]]["name"] if k == "m" else e[1]
+    args = e[2] if k == "m" else e[3]
+    return "%s(%s)" % (name, ", ".join(mexpr_src(a, fl) for a in args))
+
+
+def mexpr_expand(e, fl, obj):
+    """call-by-name expansion (the model's `inst`): every parameter occurrence `(p)` becomes `(<expanded argument>)`"""
+    k = e[0]
+    if k == "a":
+        return e[1]
+    if k == "K":
+        o = [x for x in obj if x["name"] == e[1]][0]
+        if "value" in o:
+            return o["value"]
+        return mexpr_expand(("m", o["target"], [("a", a) for a in o["args"]]), fl, obj)
+    if k == "o":
+        return "%s %s %s" % (mexpr_expand(e[2], fl, obj), e[1], mexpr_expand(e[3], fl, obj))
+    mi = e[1] if k == "m" else e[2]
+    args = e[2] if k == "m" else e[3]
+    m = fl[mi]
+    out = m["body"]
+    sub = {p: mexpr_expand(a, fl, obj) for p, a in zip(m["params"], args)}
+    return re.sub(r"\((x|y)\)", lambda mm: "(" + sub[mm.group(1)] + ")", out)
+
+
+def mdepth(e):
+    if e[0] in "aK":
+        return 0
+    if e[0] == "o":
+        return max(mdepth(e[2]), mdepth(e[3]))
+    return 1 + max([mdepth(a) for a in (e[2] if e[0] == "m" else e[3])] + [0])
+
+
+MCTX = ["int r%d = %s;", "if (%s) { sink(1); }", "buf[%s] = 0;", "sink(%s);", "sink(fn(%s));", "sink(100 / (%s));", "sink(gs.arr[%s]);", "g = %s;"]
+
+
+def gen_macro_pair(rng):
+    fl, obj = gen_macro_set(rng)
+    defs = ["#define %s(%s) %s" % (m["name"], ", ".join(m["params"]), m["body"]) for m in fl]
+    defs.append("#define ALIAS %s" % fl[obj[0]["target"]]["name"])
+    defs.append("#define CALL %s(%s)" % (fl[obj[1]["target"]]["name"], ", ".join(obj[1]["args"])))
+    defs.append("#define KONST %s" % obj[2]["value"])
+    uses_p, uses_x, depths, modes = [], [], [], []
     for _ in range(rng.randint(2, 4)):
-        args = [rng.choice(argsrc) for _ in params]
-        inv = name + ("(" + ", ".join(args) + ")" if params else "")
-        exp = b
-        for p, a in zip(params, args):
-            exp = exp.replace("(%s)" % p, "(%s)" % a)
-        ctx = rng.choice(["int r%d = %s;", "if (%s) { sink(1); }", "buf[%s] = 0;", "sink(%s);", "sink(fn(%s));", "sink(100 / %s);", "sink(gs.arr[%s]);"])
+        mode = rng.choice(["same", "alt2", "alt2", "alt3", "any", "any"])
+        d = rng.choice([1, 2, 3, 3, 4])
+        e = gen_mexpr(rng, fl, obj, d, mode)
+        ctx = rng.choice(MCTX)
+        inv, exp = mexpr_src(e, fl), mexpr_expand(e, fl, obj)
         if "%d" in ctx:
             k = len(uses_p)
             uses_p.append(ctx % (k, inv))
@@ -267,13 +365,28 @@ def gen_macro_pair(rng):
         else:
             uses_p.append(ctx % inv)
             uses_x.append(ctx % exp)
+        depths.append(mdepth(e))
+        modes.append(mode)
 
-    def unit(defs, uses):
-        lines = list(PRELUDE) + defs + ["void f() {"]
+    def unit(dl, uses):
+        lines = list(PRELUDE) + dl + ["void f() {"]
         base = len(lines)
         lines += ["  " + u for u in uses] + ["}"]
         return "\n".join(lines) + "\n", base
-    return unit([define], uses_p), unit([], uses_x)
+    # the twin keeps as many (blank) lines as the original has #defines so that nothing but the invocations differs
+    return unit(defs, uses_p), unit(["" for _ in defs], uses_x), dict(depth=max(depths), modes=modes)
+
+
+def gcc_expand(text):
+    """gcc -E -P on the original program; returns the token text of f()'s body lines or None if gcc is missing"""
+    import shutil
+    import subprocess
+    if not shutil.which("gcc"):
+        return None
+    p = subprocess.run(["gcc", "-E", "-P", "-x", "c", "-"], input=text.encode(), stdout=subprocess.PIPE, stderr=subprocess.DEVNULL)
+    if p.returncode != 0:
+        return None
+    return re.sub(r"\s+", "", p.stdout.decode())
 
 
 # ---- templates: single-parameter function / class templates instantiated at one type ----
